@@ -32,7 +32,18 @@ func checkC02(r *harness.Run) harness.Coverage {
 	g := univ.NewGen(univ.ProjFragment())
 	exprs := buildExprs(g, maxW, func(_ []model.Tok, ast *model.Node) bool { return univ.HasProjection(ast) })
 	st := conform(r, exprs, docs, conformOpts{})
-	finishConform(r, st, len(exprs), len(docs))
+	// long postfix chains (projection scope across several steps) x the heterogeneous documents
+	chainW := 7
+	if r.Thorough() {
+		chainW = 8
+	}
+	chains := buildExprs(univ.NewGen(univ.ChainFragment()), chainW, func(_ []model.Tok, ast *model.Node) bool { return univ.HasProjection(ast) })
+	chainDocs := append(append([]interface{}{}, projDocs...), collisionDocs...)
+	chainDocs = append(chainDocs, univ.Js(`{"a":{"x":{"a":{"a":[1,2]}},"y":{"a":{"a":[3]}}}}`, `{"a":{"x":{"a":[{"a":1},{"a":0}]},"y":{"a":[{"a":2}]}}}`, `{"a":[{"a":[{"a":[1]},{"a":[]}]},{"a":[{"a":[2,3]}]}]}`, `{"a":{"a":{"a":{"a":{"a":1}}}}}`, `[[[1,2],[3]],[[4]]]`)...)
+	st.add(conform(r, chains, chainDocs, conformOpts{}))
+	r.Note("postfix_chains", len(chains))
+	r.Note("postfix_chain_weight", chainW)
+	finishConform(r, st, len(exprs)+len(chains), len(docs))
 	sampleExprs(r, exprs, docs)
 	return harness.Coverage{Exhaustive: true, Bounds: map[string]interface{}{"expression_weight": maxW, "documents": len(docs)}, Outcomes: distinctOutcomes(st)}
 }
